@@ -1519,6 +1519,84 @@ fn env_ok(variant: &str) -> bool {
 }
 
 // ---------------------------------------------------------------------------------------------
+// Stale handles: a write()/append() handle is kept open while its path is removed, replaced by a
+// link / directory / other file, moved or re-moded; then the handle is written, flushed and dropped.
+// None of this may panic, and the instance must stay usable (no poisoned lock).
+// ---------------------------------------------------------------------------------------------
+fn stale_handles() -> Vec<(String, String)> {
+    use std::io::Write;
+    let mut out = vec![];
+    let actions: Vec<(&str, Box<dyn Fn(&Memfs) -> RvResult<()>>)> = vec![
+        ("remove(P)", Box::new(|fs| fs.remove("/d/f"))),
+        ("remove(P); symlink(P, file)", Box::new(|fs| fs.remove("/d/f").and_then(|_| fs.symlink("/d/f", "/e").map(|_| ())))),
+        ("remove(P); symlink(P, missing)", Box::new(|fs| fs.remove("/d/f").and_then(|_| fs.symlink("/d/f", "/zz").map(|_| ())))),
+        ("remove(P); symlink(P, dir)", Box::new(|fs| fs.remove("/d/f").and_then(|_| fs.symlink("/d/f", "/t").map(|_| ())))),
+        ("remove(P); mkdir_p(P)", Box::new(|fs| fs.remove("/d/f").and_then(|_| fs.mkdir_p("/d/f").map(|_| ())))),
+        ("remove_all(parent)", Box::new(|fs| fs.remove_all("/d"))),
+        ("move_p(P, sibling)", Box::new(|fs| fs.move_p("/d/f", "/d/g").map(|_| ()))),
+        ("move_p(other file, P)", Box::new(|fs| fs.move_p("/e", "/d/f").map(|_| ()))),
+        ("move_p(link, P)", Box::new(|fs| fs.symlink("/l", "/e").and_then(|_| fs.move_p("/l", "/d/f")).map(|_| ()))),
+        ("chmod(P, 0o444)", Box::new(|fs| fs.chmod("/d/f", 0o444))),
+        ("set_cwd(parent); remove_all(parent)", Box::new(|fs| fs.set_cwd("/d").and_then(|_| fs.remove_all("/d")))),
+    ];
+    for kind in ["write", "append"] {
+        for (aname, act) in &actions {
+            let fs = Memfs::new();
+            let setup = catch_unwind(AssertUnwindSafe(|| -> RvResult<()> {
+                fs.mkdir_p("/d")?;
+                fs.mkdir_p("/t")?;
+                fs.write_all("/d/f", b"old")?;
+                fs.write_all("/e", b"e")?;
+                Ok(())
+            }));
+            if !matches!(setup, Ok(Ok(()))) {
+                out.push(("stale handle · setup failed".to_string(), format!("{:?}", setup.map(|r| r.map_err(|e| e.to_string())))));
+                continue;
+            }
+            let opened = catch_unwind(AssertUnwindSafe(|| if kind == "write" { fs.write("/d/f") } else { fs.append("/d/f") }));
+            let mut h = match opened {
+                Ok(Ok(h)) => Some(h),
+                other => {
+                    out.push((format!("stale handle · {}(P) failed on a plain file", kind), format!("{:?}", other.map(|r| r.map(|_| ()).map_err(|e| e.to_string())).map_err(|p| panic_message(&p)))));
+                    continue;
+                },
+            };
+            let mut steps: Vec<String> = vec![format!("h = {}(\"/d/f\")", kind)];
+            let mut bad: Option<String> = None;
+            match catch_unwind(AssertUnwindSafe(|| act(&fs))) {
+                Ok(_) => steps.push(aname.to_string()),
+                Err(p) => bad = Some(format!("{} panicked: {}", aname, panic_message(&p))),
+            }
+            if bad.is_none() {
+                for (step, f) in [("h.write_all(\"x\")", 0u8), ("h.flush()", 1u8)] {
+                    let hh = h.as_mut().unwrap();
+                    let r = catch_unwind(AssertUnwindSafe(|| if f == 0 { hh.write_all(b"x").map(|_| ()) } else { hh.flush() }));
+                    steps.push(step.to_string());
+                    if let Err(p) = r {
+                        bad = Some(format!("{} panicked: {}", step, panic_message(&p)));
+                        break;
+                    }
+                }
+            }
+            let hh = h.take();
+            if let Err(p) = catch_unwind(AssertUnwindSafe(move || drop(hh))) {
+                if bad.is_none() {
+                    bad = Some(format!("drop(h) panicked: {}", panic_message(&p)));
+                }
+            }
+            steps.push("drop(h)".to_string());
+            if let Some(b) = bad {
+                out.push((format!("stale {} handle · panic · after {}", kind, aname), format!("[{}]: {}", steps.join("; "), b)));
+            }
+            if let Err(e) = usable(&fs) {
+                out.push((format!("stale {} handle · instance unusable afterwards · after {}", kind, aname), format!("[{}]: {}", steps.join("; "), e)));
+            }
+        }
+    }
+    out
+}
+
+// ---------------------------------------------------------------------------------------------
 // Entry points
 // ---------------------------------------------------------------------------------------------
 pub fn run(ctx: &Ctx) -> i32 {
@@ -1531,6 +1609,9 @@ pub fn run(ctx: &Ctx) -> i32 {
     if !env_ok(V_SET) {
         eprintln!("machinery: C12 could not establish its environment");
         return 2;
+    }
+    for (sig, detail) in stale_handles() {
+        vio(&sig, || detail, || J::obj([("part", J::s("stale-handle"))]));
     }
     let run = Arc::new(Run::new(V_SET, ctx.tier, false));
     let wd = start_watchdog(&run, ctx.tier);
@@ -1660,6 +1741,18 @@ pub fn worker(w: &mut WorkerCtx) {
 fn replay(ctx: &Ctx, p: &std::path::Path) -> i32 {
     let j = json::parse(&std::fs::read_to_string(p).expect("read replay")).expect("parse replay");
     let case = j.get("case").expect("case");
+    if case.get("part").and_then(|x| x.as_str()) == Some("stale-handle") {
+        let found = stale_handles();
+        for (sig, detail) in &found {
+            println!("  {}: {}", sig, detail);
+        }
+        if found.is_empty() {
+            println!("holds on this case");
+            return 0;
+        }
+        println!("VIOLATION property={} replay={}", ctx.prop, p.display());
+        return 1;
+    }
     let part = Part::from(case.get("part").and_then(|x| x.as_str()).expect("case.part")).expect("known part");
     let variant: &'static str = if case.get("env").and_then(|x| x.as_str()) == Some(V_UNSET) { V_UNSET } else { V_SET };
     let state = case.get("state").and_then(|x| x.as_i64()).unwrap_or(0) as usize;
